@@ -254,6 +254,7 @@ func (cc *ctlConn) secure(shared []byte) {
 	cc.wkey = hk(shared, "Control-Salt", "Control-Write-Encryption-Key")
 	cc.rkey = hk(shared, "Control-Salt", "Control-Read-Encryption-Key")
 	cc.secured = true
+	cc.wctr, cc.rctr = 0, 0
 	cc.br = bufio.NewReaderSize(frameReader{cc}, 4096)
 }
 
